@@ -1545,6 +1545,74 @@ impl C09 {
                 Err(_) => counters.bump("probe_hostile_field_rejected"),
             }
         }
+        // the same for element names (root or child): long names mixing ASCII
+        // with multi-byte characters or octets that are not UTF-8, with or
+        // without a namespace prefix - they end up in error values and log
+        // messages, possibly shortened
+        let mut names: Vec<(usize, usize)> = Vec::new();
+        let mut i = 0;
+        while i + 1 < text.len() && names.len() < 60 {
+            if text[i] == b'<' && text[i + 1].is_ascii_alphabetic() {
+                let end = text[i + 1..].iter().position(|b| matches!(b, b' ' | b'>' | b'/' | b'\n' | b'\t')).map(|e| i + 1 + e).unwrap_or(text.len());
+                names.push((i + 1, end));
+                i = end;
+            } else {
+                i += 1;
+            }
+        }
+        for _ in 0..if names.is_empty() { 0 } else { 6 } {
+            let (ns, ne) = names[ctx.choose(names.len() as u64) as usize];
+            let (val, rcfg) = {
+                let mut t = ctx.tape.lock().unwrap();
+                let mut v: Vec<u8> = Vec::new();
+                if t.chance(1, 3) {
+                    v.extend_from_slice(b"p:");
+                }
+                let n = match t.choose(5) { 0 => t.choose(10) as usize, 1 => 120 + t.choose(10) as usize, 2 => 250 + t.choose(10) as usize, _ => 58 + t.choose(10) as usize };
+                for k in 0..n {
+                    v.push(b'a' + (k % 26) as u8);
+                }
+                match t.choose(5) {
+                    0 => v.extend_from_slice("\u{e9}".as_bytes()),
+                    1 => v.extend_from_slice("\u{20ac}".as_bytes()),
+                    2 => v.extend_from_slice("\u{1F600}".as_bytes()),
+                    3 => v.push(0xff),
+                    _ => v.extend_from_slice(&[0xe2, 0x82]),
+                }
+                for k in 0..t.choose(8) as usize {
+                    v.push(b'z' - (k % 26) as u8);
+                }
+                (v, gen_read_cfg(&mut t, true))
+            };
+            let mut damaged = text[..ns].to_vec();
+            damaged.extend_from_slice(&val);
+            damaged.extend_from_slice(&text[ne..]);
+            let damaged = Arc::new(damaged);
+            let mut r = reader(ctx, &damaged, rcfg);
+            ctx.ev(62, ns as u64, || format!("G: element name at byte {} replaced by {} octets: {}", ns, val.len(), String::from_utf8_lossy(&val)));
+            let streaming = !matches!(doc, Doc::Notification(_)) && ctx.chance(1, 2);
+            let res = guarded("parse-hostile-name", || {
+                Ok(if streaming {
+                    let mut rec = Recorder { ctx: ctx.clone(), recs: Vec::new(), bulk: true };
+                    match doc {
+                        Doc::Snapshot(_) => ProcessSnapshot::process(&mut rec, &mut r).map(|_| ()).map_err(|e| e.to_string()),
+                        _ => ProcessDelta::process(&mut rec, &mut r).map(|_| ()).map_err(|e| e.to_string()),
+                    }
+                } else {
+                    doc.parse_same(&mut r).map(|_| ())
+                })
+            })?;
+            out.evaluations += 1;
+            out.sub_sigs.push(fnv(&damaged) ^ 0x62);
+            counters.bump("fault_hostile_element_name");
+            if r.over_consumed > 0 {
+                return Err(Violation::new("over-consume", "name", format!("the parser consumed {} bytes more than fill_buf had exposed", r.over_consumed)));
+            }
+            match res {
+                Ok(_) => counters.bump("probe_hostile_name_accepted"),
+                Err(_) => counters.bump("probe_hostile_name_rejected"),
+            }
+        }
         // the same for the text of a <publish> element
         let mut texts: Vec<(usize, usize)> = Vec::new();
         let mut from = 0usize;
